@@ -249,6 +249,53 @@ func runC01(seed int64, n int, tier string, outDir string) (*Report, error) {
 		rep.Count("directed-leaf")
 		idx++
 	}
+	// the same list of ids in the other list forms an item property can hold (the Go types IRIs and *IRIs, a pointer to a
+	// list): what comes back is what the plain list of those ids comes back as - every id, in order
+	{
+		a, b, c := ap.IRI("https://example.com/actors/alice"), ap.IRI("https://example.com/actors/carol"), ap.IRI("https://example.com/actors/dave")
+		two, three := ap.IRIs{a, b}, ap.ItemCollection{a, b, c}
+		forms := []struct {
+			name  string
+			form  ap.Item
+			canon ap.Item
+		}{{"IRIs", two, ap.ItemCollection{a, b}}, {"*IRIs", &two, ap.ItemCollection{a, b}}, {"IRIs of one (written as a list of one, not collapsed)", ap.IRIs{a}, ap.ItemCollection{a}}, {"*ItemCollection", &three, three}}
+		for _, f := range forms {
+			for _, prop := range []string{"InReplyTo", "AttributedTo", "Attachment", "Object", "Actor", "Target"} {
+				mk := func(v ap.Item) ap.Item {
+					x := &ap.Activity{ID: "https://example.com/forms", Type: ap.LikeType}
+					reflect.ValueOf(x).Elem().FieldByName(prop).Set(reflect.ValueOf(&v).Elem())
+					return x
+				}
+				x, canon := mk(f.form), mk(f.canon)
+				rep.Evaluations++
+				rep.Count("directed:list-forms")
+				var back ap.Item
+				var out []byte
+				var err error
+				func() {
+					defer func() {
+						if r := recover(); r != nil {
+							err = fmt.Errorf("panic: %v", r)
+						}
+					}()
+					out, err = x.(json.Marshaler).MarshalJSON()
+					if err == nil {
+						back, err = ap.UnmarshalJSON(out)
+					}
+				}()
+				var diffs []string
+				if err != nil {
+					diffs = []string{err.Error()}
+				} else {
+					c01Diff("Activity", canon, back, &diffs)
+				}
+				if len(diffs) > 0 {
+					rep.Violate(Violation{Op: "json round trip of " + prop + " held as " + f.name, Input: CoqItem(canon), Expected: "what the plain list of the same ids comes back as", Observed: strings.Join(diffs, "; ") + "   JSON=" + trunc(string(out), 300), Index: idx})
+				}
+				idx++
+			}
+		}
+	}
 	for i := 0; i < n; i++ {
 		it := g.Struct(structTypes[i%len(structTypes)], c01Opts(g))
 		roundtrip(it, "random", idx)
